@@ -617,6 +617,25 @@ func c08Run(w *W, c Case) {
 		for _, st := range fixed {
 			c08Root(w, st, true)
 		}
+		// constructors that read the clock: whatever today is, the objects must be total and well-formed
+		cw := &c08Walker{w: w, root: "time.Now()"}
+		for s := 0; s < 7; s++ {
+			s := s
+			if pv := Call(func() { cw.reset(); cw.budget["Solar"] = 0; cw.walk(reflect.ValueOf(calendar.NewSolarWeek(s)), 1) }); pv != nil {
+				w.Violatef("total", fmt.Sprintf("NewSolarWeek(%d)/%v", s, pv), "NewSolarWeek(%d) walk panicked: %v", s, pv)
+			}
+		}
+		if pv := Call(func() {
+			cw.reset()
+			cw.budget["Solar"] = 0
+			cw.walk(reflect.ValueOf(calendar.NewSolarMonth()), 1)
+			cw.walk(reflect.ValueOf(calendar.NewSolarSeason()), 1)
+			cw.walk(reflect.ValueOf(calendar.NewSolarHalfYear()), 1)
+			cw.walk(reflect.ValueOf(calendar.NewSolarYear()), 1)
+		}); pv != nil {
+			w.Violatef("total", fmt.Sprintf("clock-constructors/%v", pv), "clock-based unit constructors panicked: %v", pv)
+		}
+		w.Eval(cw.calls)
 		w.Sample("fixed", fmtStamp(fixed[5]))
 		return
 	}
